@@ -134,6 +134,12 @@ class World:
             self.known_hits[k] = self.known_hits.get(k, 0) + 1
             self.note(kind="known-finding", sig=sig)
             return
+        if os.environ.get("VERIF_COLLECT_ALL"):  # development aid: survey all signatures, never a verdict
+            self.stats.hit("SIG " + sig)
+            if ("SIGSEEN", sig) not in self.state_digests:
+                self.state_digests.add(("SIGSEEN", sig))
+                self.note(kind="collected", sig=sig, detail=detail[:300], i=self.cur_event_index)
+            return
         raise Violation(sig, detail, clause)
 
     # -- deck lifecycle --
@@ -270,7 +276,7 @@ def execute(trace: dict, oracles: list, known_sigs=(), collect_log=True) -> dict
     res["sim_seconds"] = w.clock.elapsed
     res["clock_jumps"] = w.clock.jumps
     res["clock_back_jumps"] = w.clock.back_jumps
-    res["states"] = sorted(w.state_digests)
+    res["states"] = sorted(x for x in w.state_digests if isinstance(x, str))
     if collect_log:
         res["log"] = w.log
     return res
